@@ -680,3 +680,22 @@ MM("ua-helper-returns-when-any-nul-counted", "C02.R6", [(F, ITER_DEF, UA_HELPER.
     '    if len(setting.value.rstrip(b"\\x00")) < 0x80:\n', '    if setting.value.count(b"\\x00"):\n') + ITER_DEF), (F, UA, UA_CALL)])
 MM("ua-fill-test-inverted", "C02.R6", [(F, FILL, 'len(setting.value.rstrip(b"\\x00")) < 0x80')])
 MM("ua-fill-first-byte-tested", "C02.R6", [(F, FILL, 'setting.value[0] != 0')])
+
+# R1 "record layout from the C definitions": the widths / signedness of the Setting header fields are resolved by type *name*
+# (enum base types, scalar typedefs of the definition text, the built-in typedef names of dissect.cstruct) and the enum members
+# by C numbering, so restyling the grammar (implicit consecutive enumerators, uint16_t / WORD / unsigned short, a local
+# typedef) is invisible.  Mutants: another width or a signed read behind such an alias, implicit numbering that shifts values.
+ST_ENUM = ('enum SettingsType: uint16 {\n    TYPE_NONE = 0,\n    TYPE_SHORT = 1,\n    TYPE_INT = 2,\n    TYPE_PTR = 3,\n};\n')
+ST_STRUCT = ('struct Setting {\n    BeaconSetting index;    // uint16\n    SettingsType type;      // uint16\n'
+             '    uint16 length;          // uint16\n    char value[length];\n};\n')
+TT("twin-cdef-length-word", [(F, '    uint16 length;          // uint16\n', '    WORD length;\n')])
+TT("twin-cdef-length-unsigned-short", [(F, '    uint16 length;          // uint16\n', '    unsigned  short length;  /* 16 bit */\n')])
+TT("twin-cdef-length-user-typedef", [(F, ST_STRUCT, 'typedef uint16_t be16;\n\n' + ST_STRUCT.replace('    uint16 length; ', '    be16 length;   '))])
+TT("twin-cdef-enum-implicit-tail-ushort", [(F, ST_ENUM, 'enum SettingsType: USHORT {\n    TYPE_NONE = 0,\n    TYPE_SHORT,\n    TYPE_INT,\n    TYPE_PTR\n};\n')])
+TT("twin-cdef-index-enum-base-alias", [(F, 'enum BeaconSetting: uint16 {', 'enum BeaconSetting: uint16_t {')])
+MM("cdef-length-uint32-alias", "C02.R1", [(F, '    uint16 length;          // uint16\n', '    uint32_t length;\n')])
+MM("cdef-length-signed-alias", "C02.R1", [(F, '    uint16 length;          // uint16\n', '    int16_t length;\n')])
+MM("cdef-length-typedef-narrow", "C02.R1", [(F, ST_STRUCT, 'typedef uint8 be16;\n\n' + ST_STRUCT.replace('    uint16 length; ', '    be16 length;   '))])
+MM("cdef-index-enum-base-signed", "C02.R1", [(F, 'enum BeaconSetting: uint16 {', 'enum BeaconSetting: SHORT {')])
+MM("cdef-type-enum-implicit-reordered", "C02.R1", [(F, ST_ENUM, 'enum SettingsType: uint16_t {\n    TYPE_NONE,\n    TYPE_INT,\n    TYPE_SHORT,\n    TYPE_PTR,\n};\n')])
+MM("cdef-type-enum-implicit-from-one", "C02.R1", [(F, ST_ENUM, 'enum SettingsType: uint16 {\n    TYPE_NONE = 1,\n    TYPE_SHORT,\n    TYPE_INT,\n    TYPE_PTR,\n};\n')])
